@@ -220,6 +220,8 @@ class World:
         batch_start = len(l.expected_acks)
         for (pi, p) in batch:
             brk = self.packet(pi, i, l, p)
+            if brk and brk != "disconnect-packet":
+                l.misbehaved = True
             if brk:
                 l.final_batch_from = batch_start
                 self.end_link(l, i, brk)
@@ -271,6 +273,7 @@ class World:
                 codes.append(q)
             l.expected_acks.append(("SUBACK", p[1], ",".join(codes) if codes else "-"))
             if bad:
+                l.misbehaved = True
                 l.pending_end = bad
                 # the flag is set but the batch goes on; the connection is closed after it
                 l.deferred_end = bad
@@ -291,6 +294,8 @@ class World:
         if kind == "PUBACK" or kind == "PUBREC":
             if not l.unacked or l.unacked[0][0] != int(p[1]):
                 self.undecidable_ack(i, l)
+                if l.unacked:
+                    l.unacked.popleft()      # register_ack pops the head before comparing
                 return "unsolicited-ack"
             head = l.unacked.popleft()
             if len(head) > 2:
@@ -305,6 +310,8 @@ class World:
         if kind == "PUBCOMP":
             rp = getattr(l, "rel_pending", deque())
             if not rp or rp[0] != int(p[1]):
+                if rp:
+                    rp.popleft()             # register_pubcomp pops the head before comparing
                 return "unsolicited-pubcomp"
             rp.popleft()
             return None
@@ -410,6 +417,28 @@ class World:
         l = self.owner.get(int(t[1]))
         if l is not None:
             self.end_link(l, i, "disconnect-event")
+
+    # ---- foreign / stale signals: same router event, not sent by the addressed connection's link
+    def op_XDATA(self, i, t, ans):
+        self.op_DATA(i, t, ans)
+
+    def op_XREADY(self, i, t, ans):
+        l = self.owner.get(int(t[1]))
+        if l is not None and not l.owe_ready:
+            return      # ignored by the router unless the connection is paused Busy; ghost: no effect
+        self.op_READY(i, t, ans)
+
+    def op_XSHADOW(self, i, t, ans):
+        pass
+
+    def op_XDISCONNECT(self, i, t, ans):
+        l = self.owner.get(int(t[1]))
+        if l is not None:
+            # known finding K10: events address connections by bare slab key; a signal that the
+            # connection's own link did not send ends it
+            l.foreign_end = i
+            self.known.append((i, "C14", "K10", "link %d (%r) was closed by a Disconnect event its own link did not send (key %s)" % (l.k, l.name, t[1])))
+        self.op_DISCONNECT(i, t, ans)
 
     def op_WILL(self, i, t, ans):
         name = unhx(t[1])
@@ -761,6 +790,22 @@ def check_delivery(w, q):
 def evaluate(ops, answers):
     w = World(ops, answers).run()
     check_end(w)
+    # ---- C14: in a history where somebody misbehaved or foreign signals occurred, every alarm
+    # about a link that itself behaved well is (also) an isolation failure
+    hostile = any(getattr(l, "misbehaved", False) for l in w.links) or any(o.split()[0].startswith("X") for o in ops[: len(answers)])
+    if hostile:
+        good = {l.k for l in w.links if l.registered and not getattr(l, "misbehaved", False) and getattr(l, "foreign_end", None) is None}
+        import re as _re
+        extra = []
+        for (i, pr, text) in w.v:
+            m = _re.search(r"link (\d+)", text)
+            if pr in ("C01", "C06", "C08", "C09") and m and int(m.group(1)) in good:
+                extra.append((i, "C14", "well-behaved " + text))
+        w.v.extend(extra)
+        for l in w.links:
+            if l.k in good and getattr(l, "got_disconnect", None) is not None and l.end_kind in (None, "disconnect-event", "takeover", "disconnect-packet"):
+                w.viol(l.at, "C14", "well-behaved link %d (%r) was sent DISCONNECT %s by the router" % (l.k, l.name, l.got_disconnect))
+        w.stats["c14_good_links_in_hostile_histories"] += len(good)
     if w.lost is not None:
         # the ghost's picture of which connection owns which id was refuted by a ConnAck:
         # nothing it concluded about deliveries/acks is reliable; keep only the panic clause
